@@ -6,7 +6,9 @@ import common
 import solvecheck
 
 THEOREMS = ["Pyvsc.C14.maxProp_keeps", "Pyvsc.C14.capLast_sub", "Pyvsc.C14.minProp_keeps", "Pyvsc.C14.inProp_keeps",
-            "Pyvsc.C14.bit_candidate", "Pyvsc.C14.target_returned", "Pyvsc.C14.untouched_full"]
+            "Pyvsc.C14.bit_candidate", "Pyvsc.C14.target_returned", "Pyvsc.C14.untouched_full",
+            "Pyvsc.C14.process_sound", "Pyvsc.C14.runProp_sound", "Pyvsc.C14.fixpoint_sound", "Pyvsc.C14.visitTop_sound",
+            "Pyvsc.C14.good_maxProp", "Pyvsc.C14.good_minProp", "Pyvsc.C14.good_inProp"]
 PROFILE = {"samesign": True, "relational": 0.6, "soft": 0.04, "big": 0.05, "maxstmts": 3, "calls": 3}
 RULE = ("as C01, biased to what bound inference reads: top-level relational and in statements of a field against literals, non-random "
         "fields and small non-random expressions, and field-field relations; several calls per object so that old values stay in the "
@@ -18,7 +20,7 @@ RULE = ("as C01, biased to what bound inference reads: top-level relational and 
 
 if __name__ == "__main__":
     common.run_main(lambda: solvecheck.standard_main(
-        "C14", ["C14"], THEOREMS, PROFILE, 300, 12000,
+        "C14", ["C14", "C14Fix"], THEOREMS, PROFILE, 300, 12000,
         ["as C01 for the solve itself", "uniformity of random.Random.randint is assumed for the probability reading of target_returned",
          "generator restricted to one signedness per scenario without wrap-around (F21 is replayed by its witness)"],
         RULE, bounds=True))
